@@ -42,6 +42,7 @@ class QuaToSM(ConvertBase):
         sms.background = qua.background_file
         sms.sample_start = qua.song_preview_time
         sms.sample_length = 10
-        sms.offset = qua.stack().offset.min()
+        # Beat 0 of the file is the first bpm
+        sms.offset = sm.bpms.first_offset() or 0.0
 
         return sms
